@@ -7,7 +7,7 @@ L3  VerifyJudge.tla judges every outcome against the requirement; L2: outcome eq
 import json
 import os
 
-from vlib import Infra, go_test, l1, log, monitor, report, tlc, tlc_require_ok, trace_of
+from vlib import Infra, go_test, l1, log, monitor, report, tlc, tlc_require_ok, trace_any, trace_of
 
 INVS = {"ReaderOnlyMatching", "ReaderReturnsDescribedBytes", "PushMustFail", "FailedPushInvisible",
         "FailedPushLeavesNoBlobFile", "VisibleMatchesDescriptor", "ExistsMeansFetchable", "BlobFilesComplete"}
@@ -65,7 +65,7 @@ def run(ctx, replay=None):
         sc = {"c": rec["c"], "consumer": rec["consumer"], "concurrent": rec.get("concurrent", False)}
         report(ctx, "ingest-case", v["inv"], sc, [rec], what="%s: consumer=%s case=%s outcome=%s" % (
             v["inv"], rec["consumer"], json.dumps(rec["c"]), json.dumps({k: rec[k] for k in rec if k not in ("c", "t", "i", "e")})))
-    sample = trace_of(summ["files"][0], summ["records"] // 3 or 1, 2)
+    sample = trace_any(summ["files"], min(summ["records"] // 3 or 1, 5000), 2)
     return {
         "evaluations": summ["records"], "distinct_nontrivial": summ["records"] - summ["concurrent_rounds"],
         "rule": "one evaluation = one (case, consumer) pair replayed into the real code; cases come from the TLC-emitted "
